@@ -377,6 +377,15 @@ pub async fn proxy<Frontend: SocketSend + SocketRecv, Backend: SocketSend + Sock
     }
 }
 
+#[cfg(feature = "verif-hooks")]
+mod verif;
+#[cfg(feature = "verif-hooks")]
+#[doc(hidden)]
+pub mod __verif {
+    //! DO NOT USE! Hooks for external runtime monitoring (`verif-hooks` feature).
+    pub use super::verif::*;
+}
+
 pub mod prelude {
     //! Re-exports important traits. Consider glob-importing.
 
